@@ -107,6 +107,24 @@ def run(tier):
         ok = okr0 and not okr1
         print("%-70s %s" % ("MonorailTrace explains a concurrent reader's answer, rejects another slot", "ok" if ok else "UNEXPECTED"))
         good &= ok
+        arec = None
+        for i in range(60):
+            r = freerun.scenario(bins, i, _random.Random(777 + i))
+            if any(e["e"] == "answered" and e["ok"] for e in r["events"]):
+                arec = r
+                break
+        if arec is None:
+            raise vlib.ToolError("no free-running scenario with an analyze reader")
+        oka0, _ = freerun.validate(arec, tmp)
+        wa = copy.deepcopy(arec); wa["idx"] = 904
+        e = next(x for x in wa["events"] if x["e"] == "answered" and x["ok"]); e["checkpointed"] = not e["checkpointed"]
+        oka1, _ = freerun.validate(wa, tmp)
+        wb = copy.deepcopy(arec); wb["idx"] = 905
+        e = next(x for x in wb["events"] if x["e"] == "answered" and x["ok"]); e["targets"] = e["targets"][1:] if e["targets"] else [["a"]]
+        oka2, _ = freerun.validate(wb, tmp)
+        ok = oka0 and not oka1 and not oka2
+        print("%-70s %s" % ("MonorailTrace explains a concurrent analyze, rejects two corruptions", "ok" if ok else "UNEXPECTED"))
+        good &= ok
     finally:
         shutil.rmtree(tmp, ignore_errors=True)
     if not good:
